@@ -201,6 +201,55 @@ where
         A::comm_obs(i, comms[i].commitment(), &states[i], out);
     }
 
+    // ---- C07: repeated commitments under equal / different RNG streams, and without an RNG ----
+    if c.has("c07") {
+        let seed = c.u64_1("commit_seed");
+        let again = |sd: u64| -> Option<Vec<Vec<u8>>> {
+            let mut r = CountingRng::new(sd);
+            guard_any(|| A::PC::commit(&ck, polys.iter(), Some(&mut r))).ok().map(|(cs, _)| cs.iter().map(|x| ser(x.commitment())).collect())
+        };
+        let base: Vec<Vec<u8>> = comms.iter().map(|x| ser(x.commitment())).collect();
+        let same = again(seed);
+        let other = again(seed ^ 0x5a5a_5a5a_1234);
+        for i in 0..n {
+            out.obs1(&format!("same_seed.{}", i), "S", match &same { Some(v) => if v[i] == base[i] { "equal".into() } else { "differ".into() }, None => "refused".into() });
+            out.obs1(&format!("diff_seed.{}", i), "S", match &other { Some(v) => if v[i] == base[i] { "equal".into() } else { "differ".into() }, None => "refused".into() });
+        }
+        // N repeated commitments: pairwise distinct per polynomial
+        let reps: Vec<Option<Vec<Vec<u8>>>> = (1..=6u64).map(|k| again(seed.wrapping_add(k * 7919))).collect();
+        for i in 0..n {
+            let mut all: Vec<&Vec<u8>> = vec![&base[i]];
+            for r in reps.iter().flatten() { all.push(&r[i]); }
+            let mut distinct = true;
+            for a in 0..all.len() { for b in (a + 1)..all.len() { if all[a] == all[b] { distinct = false; } } }
+            out.obs1(&format!("repeat_distinct.{}", i), "S", if distinct { "yes".into() } else { "no".into() });
+        }
+        let norng = guard_any(|| A::PC::commit(&ck, polys.iter(), None));
+        out.obs1("commit_without_rng", "S", norng.class());
+        if let Some((cs, _)) = norng.ok() {
+            for i in 0..n { out.obs1(&format!("norng_equal.{}", i), "S", if ser(cs[i].commitment()) == base[i] { "equal".into() } else { "differ".into() }); }
+        }
+        // proofs made from states of different streams differ when hiding
+        if npts > 0 && n > 0 {
+            let mut r3 = CountingRng::new(seed ^ 0x5a5a_5a5a_1234);
+            if let Some((cs3, st3)) = guard_any(|| A::PC::commit(&ck, polys.iter(), Some(&mut r3))).ok() {
+                for i in 0..n {
+                    let mut s1 = RecSponge::<A::F>::fresh();
+                    let mut s2 = RecSponge::<A::F>::fresh();
+                    let mut o1 = CountingRng::new(5);
+                    let mut o2 = CountingRng::new(5);
+                    let p1 = guard_any(|| A::PC::open(&ck, [&polys[i]], [&comms[i]], &pts[0], &mut s1, [&states[i]], Some(&mut o1)));
+                    let p2 = guard_any(|| A::PC::open(&ck, [&polys[i]], [&cs3[i]], &pts[0], &mut s2, [&st3[i]], Some(&mut o2)));
+                    if let (Some(a), Some(b)) = (p1.ok(), p2.ok()) {
+                        let ba: BPf<A> = vec![a].into();
+                        let bb: BPf<A> = vec![b].into();
+                        out.obs1(&format!("proof_diff.{}", i), "S", if ser(&ba) == ser(&bb) { "equal".into() } else { "differ".into() });
+                    }
+                }
+            }
+        }
+    }
+
     // ---- sponges ----
     let pre: Vec<A::F> = fs_from_strs(c.get("sponge_pre"));
     let mut ps = RecSponge::<A::F>::fresh();
